@@ -137,7 +137,12 @@ func c06BigFile() ([]byte, []string) {
 	}
 	keys := []string{"a1", "b1", "abig", "b2", "a2", "bbig", "a3", "b3"}
 	items := []rdbgen.Item{rdbgen.SelectDB(0, rdbgen.LCanon)}
-	for _, k := range keys {
+	for i, k := range keys {
+		if i == 2 {
+			// from the first big hash on everything lives in database 3: the workers that pick up its
+			// later pieces have not seen that database yet
+			items = append(items, rdbgen.SelectDB(3, rdbgen.LCanon))
+		}
 		if strings.HasSuffix(k, "big") {
 			items = append(items, big(k))
 		} else {
@@ -174,9 +179,16 @@ func c06FullBig(c c06Case) (string, string) {
 	if aborted || err != nil {
 		return "abort", fmt.Sprintf("full sync fails: %v", err)
 	}
-	for _, k := range keys {
+	for i, k := range keys {
 		want := kit06.Passes(c.Cfg, "full", 0, k)
-		e := srv.Lookup(0, k)
+		db, other := 0, 3
+		if i >= 2 {
+			db, other = 3, 0
+		}
+		if stray := srv.Lookup(other, k); stray != nil {
+			return "key-in-wrong-db", fmt.Sprintf("key %q of source db %d (or a part of it: %d hash fields) was written into target db %d", k, db, len(stray.Hash), other)
+		}
+		e := srv.Lookup(db, k)
 		switch {
 		case !want && e != nil:
 			return "excluded-key-reached-target", fmt.Sprintf("key %q is excluded by the configuration and exists on the target (%d hash fields)", k, len(e.Hash))
